@@ -3,7 +3,7 @@ import itertools
 
 from hypothesis import strategies as st
 
-from vlib.core import Part, Violation, Discard, call
+from vlib.core import call_twice, Part, Violation, Discard, call
 from vlib.models import TableGrader
 
 from mitxgraders import (StringGrader, FormulaGrader, NumericalGrader, MatrixGrader, SingleListGrader, ListGrader)
@@ -62,7 +62,7 @@ SENTINEL = 'Wrong-Msg#7'
 PAL = [0, 0.1, 1 / 3, 0.5, 0.7, 1]
 CREDITS = [0, 0.1, 1 / 3, 0.5, 0.7, 1, 1, 1.0, 0.0, 0.5]
 MSGS = ['', '', '', 'A', 'B', 'ok', 'no', 'good', 'nice', 'well done', 'try again', 'two\nlines', 'ten chars!',
-        'a much longer piece of feedback']
+        'a much longer piece of feedback', 'set {a, b}', '{0}', 'x } {', '50% %s']
 
 
 # ----------------------------------------------------------------------------------------------------
@@ -203,6 +203,21 @@ def check_single_feedback(kind, alts, singles, inp, rec):
     credit g > 0 against that alternative alone is a full match of it, and the feedback reported is that
     alternative's own message.  (A seeded change recomputed ok per sample so that alternatives worth less than 1 were
     no longer recognised as matched: right grade, feedback lost - invisible to a purely differential oracle.)"""
+    if kind == 'SL':
+        # a string-form alternative ('cat, dog': blanks after a delimiter belong to the following entry) submitted
+        # verbatim matches itself item for item, whatever the subgrader makes of blanks: full credit of that alternative
+        k = 0
+        for alt in alts:
+            for e in alt['e']:
+                status, r = singles[k]
+                k += 1
+                if isinstance(e, str) and inp == e and status == 'ok':
+                    rec.cls('single/own-text-anchor-checked')
+                    if abs(r['grade_decimal'] - alt['g']) > 1e-12:
+                        raise Violation('single/own-text-not-matched', 'SingleListGrader: the string-form alternative %r '
+                                        'submitted verbatim earns %r against that alternative alone, not its credit %r'
+                                        % (e, r['grade_decimal'], alt['g']))
+        return
     if kind not in ('S', 'F', 'N', 'M'):
         return
     flat = [alt for alt in alts for _ in range(len(alt['e']))]
@@ -388,9 +403,9 @@ def run_item(kind, opts, alts, wrong, inputs, orders, seed, rec, untupled=False)
         for oi, order in enumerate(orders):
             g = make(kind, opts, answers=answers_of(alts, order, oi, untupled), wrong=wrong)
             for inp, want in zip(inputs, wants):
-                set_seed(seed)
-                status, r = call(g, None, inp)
-                rec.calls()
+                # (twice on the same grader object: the resubmission must get the same outcome, vlib.core.call_twice)
+                status, r = call_twice(g, lambda: set_seed(seed), None, inp)
+                rec.calls(2)
                 check_result(want, status, r, wrong, '', {'order': order, 'input': inp})
     finally:
         _SHARE = None
@@ -601,7 +616,8 @@ def profiles(draw, kind):
         length = draw(st.integers(1, 3))
         toks = draw(st.permutations(TOKENS))[:length + draw(st.integers(1, 2))]
         opts = {'ordered': draw(st.booleans()),
-                'sub': {'kind': 'S', 'opts': {}, 'wrong': 'nope' if chance(draw, 25) else ''}}
+                'sub': {'kind': 'S', 'opts': dict(pick(draw, [{}, {}, {'strip': False}, {'strip': False, 'clean_spaces': False}])),
+                        'wrong': 'nope' if chance(draw, 25) else ''}}
         if chance(draw, 20):
             opts['partial_credit'] = False
         if chance(draw, 10):
@@ -714,6 +730,9 @@ def draw_input(draw, prof, alts):
     if kind == 'T':
         return pick(draw, ['i0', 'i0', 'i1', 'i1', ' i0 ', 'zz'])
     if kind == 'SL':
+        strings = [e for a in alts for e in a['e'] if isinstance(e, str)]
+        if strings and c >= 90:
+            return pick(draw, strings)       # the very text of a string-form alternative, blanks after delimiters included
         length = prof['length']
         m = pick(draw, [length] * 5 + [length + 1] + ([length - 1] if length > 1 else []))
         if c < 60:
@@ -944,7 +963,7 @@ PARTS = [
     Part('string-small', 'enum', judge_string, items=items_string, exhaustive=True),
     Part('linear-shared', 'enum', judge_linear_shared, items=items_linear_shared, exhaustive=True),
     Part('items', 'hyp', judge_items, strategy=lambda tier: item_specs(),
-         budget={'quick': 4000, 'thorough': 60000}),
+         budget={'quick': 3000, 'thorough': 60000}),
     Part('in-list', 'hyp', judge_list, strategy=lambda tier: list_specs(),
          budget={'quick': 1200, 'thorough': 20000}),
     Part('in-singlelist', 'hyp', judge_slist, strategy=lambda tier: slist_specs(),
